@@ -182,6 +182,19 @@ def wl_forge(ctx, config, scale=1.0):
         r_, s_, m, Q = t
         verify_case(ctx, config, r_, s_, m, Q, "forge_r:" + nm + (":x>=n" if R[0] >= n else (":x<p-n" if R[0] < p - n else "")))
 
+def wl_nonce_fn(ctx, config, scale=1.0):
+    """the exported RFC 6979 nonce function called directly: every combination of algo16 / extra data present or absent, attempt counters
+    0..5, messages below and above n"""
+    rng = ctx.rng
+    for it in range(int(ctx.n(200, 5000) * scale)):
+        sk = b32(pools.scalar(rng, 0.3)); msg = pools.msg32(rng, 0.4)
+        algo = pools.rbytes(rng, 16) if it % 2 else None; data = pools.rbytes(rng, 32) if (it >> 1) % 2 else None; cnt = rng.choice((0, 0, 1, 2, 5))
+        r = ctx.call("nonce_rfc6979", msg, sk, algo, data, cnt, config=config)
+        if r is None: continue
+        ctx.ev("nonce_rfc6979", "algo%d:data%d:attempt%d" % (algo is not None, data is not None, min(cnt, 2)), True, msg, sk, algo or b'', data or b'', cnt)
+        want = rfc6979_nonce(sk, msg, data, algo, cnt)
+        ctx.check(r.ret == 1 and r.b(1) == want, "nonce_rfc6979:bytes", "sk=%s msg=%s algo=%s data=%s attempt=%d want %s got %r" % (sk.hex(), msg.hex(), algo, data, cnt, want.hex(), r), config)
+
 def wl_infinity(ctx, config, scale=1.0):
     """u1*G + u2*Q is the point at infinity (Q = -(m/r) G): must be rejected, for every r, s"""
     rng = ctx.rng
@@ -281,4 +294,5 @@ def run(ctx):
         wl_verify(ctx, config, scale)
         wl_forge(ctx, config, scale)
         wl_infinity(ctx, config, scale)
+        wl_nonce_fn(ctx, config, scale)
         wl_recover(ctx, config, scale)
